@@ -88,7 +88,17 @@ def p1_case(part, row, case):
         # split-site style disorder: the atoms of the last molecule of the asymmetric unit are partially occupied
         mi = np.asarray(asym["molidx"])
         occ = np.where(mi == mi.max(), float(case["occ"]), 1.0)
-    c = xtal.make_crystal(row["number"], row["choice"], cell, asym["symbols"], asym["frac"], occupation=occ)
+    labels = None
+    if case.get("labels") == "misleading":
+        # explicit elements with site labels whose leading letters spell ANOTHER element (hydroxyl H "HO1", PDB-style "CA", "OS1" ...)
+        pool = {"O": ["OS1", "OH2"], "H": ["HO1", "HE2", "HG3", "HF4"], "C": ["CA", "CD1", "CO2"]}
+        seen_l = {}
+        labels = []
+        for sym in asym["symbols"]:
+            k = seen_l.get(sym, 0)
+            labels.append(pool[sym][k % len(pool[sym])] + ("" if k < len(pool[sym]) else str(k)))
+            seen_l[sym] = k + 1
+    c = xtal.make_crystal(row["number"], row["choice"], cell, asym["symbols"], asym["frac"], occupation=occ, labels=labels)
     if rotated:
         from chmpy.crystal import Crystal, UnitCell
 
@@ -101,7 +111,7 @@ def p1_case(part, row, case):
             part.ev()
             part.tr()
             cc = dict(case, sizes=[list(size)], route=route)
-            tag = "%s:%s%s" % (route, "rotated-frame" if rotated else "standard-frame", ":partial-occupancy" if occ is not None else "")
+            tag = "%s:%s%s" % (route, "rotated-frame" if rotated else "standard-frame", ":partial-occupancy" if occ is not None else ":misleading-labels" if labels else "")
             try:
                 cfresh = xtal.fresh_from_state(xtal.public_state(c))
                 p = cfresh.as_P1_supercell(size) if route == "as_P1_supercell" else cfresh.to_translational_symmetry(supercell=size)
@@ -221,6 +231,10 @@ def p1_worker(part, job, seed, thorough):
         case = {"number": row["number"], "choice": row["choice"], "zkind": zk, "centre": [0.137, 0.289, 0.611], "orient": 1, "seed": seed,
                 "sizes": [[1, 1, 1], [2, 1, 3]], "occ": o}
         p1_case(part, row, case)
+    # deviation: user labels that spell other elements than the sites hold
+    case = {"number": row["number"], "choice": row["choice"], "zkind": "2diff", "centre": [0.137, 0.289, 0.611], "orient": 1, "seed": seed,
+            "sizes": [[1, 1, 1], [2, 1, 1]], "labels": "misleading"}
+    p1_case(part, row, case)
     # deviation: the same crystal given by rotated lattice vectors
     case = {"number": row["number"], "choice": row["choice"], "zkind": "1", "centre": [0.137, 0.289, 0.611], "orient": 1, "seed": seed,
             "sizes": [[1, 1, 1], [2, 1, 1]], "frame": "rotated"}
